@@ -23,36 +23,37 @@ type FrameSpec struct {
 }
 
 type Exec struct {
-	eng      *Engine
-	ctx      *Ctx
-	heap     *heapInfo
-	root     *ssa.Function
-	rootSpec *FuncSpec
-	rootName string // pkg.Recv.Func
-	alloc0   string
-	entry    *State
-	frame    *FrameSpec
-	depth    int
-	strs     map[string]string
-	counters map[string]int
-	notes    []string // imprecision / assumption notes
-	usedSpecs map[string]bool // callee contracts used
-	inlined  map[string]bool
-	externals map[string]bool
-	anchorsHit map[int]bool
-	logInit  map[string]Val
-	lateKeys int
-	prereg   []preregKey
-	havocSeen bool
+	eng            *Engine
+	ctx            *Ctx
+	heap           *heapInfo
+	root           *ssa.Function
+	rootSpec       *FuncSpec
+	rootName       string // pkg.Recv.Func
+	alloc0         string
+	elemClosedDone map[string]bool
+	entry          *State
+	frame          *FrameSpec
+	depth          int
+	strs           map[string]string
+	counters       map[string]int
+	notes          []string        // imprecision / assumption notes
+	usedSpecs      map[string]bool // callee contracts used
+	inlined        map[string]bool
+	externals      map[string]bool
+	anchorsHit     map[int]bool
+	logInit        map[string]Val
+	lateKeys       int
+	prereg         []preregKey
+	havocSeen      bool
 }
 
 type preregKey struct {
-	kind  string // "field" "elem" "map"
-	owner *types.Named
-	field string
-	comp  string
-	sort  string
-	elemT types.Type
+	kind   string // "field" "elem" "map"
+	owner  *types.Named
+	field  string
+	comp   string
+	sort   string
+	elemT  types.Type
 	ks, vs string
 }
 
@@ -63,22 +64,22 @@ type retInfo struct {
 }
 
 type Activation struct {
-	x      *Exec
-	fn     *ssa.Function
-	subst  TSubst
-	vals   map[ssa.Value]Val
-	spec   *FuncSpec
-	depth  int
-	prefix string // obligation name prefix for inlined code
-	loops  []*loopInfo
-	byHead map[*ssa.BasicBlock]*loopInfo
-	params map[string]Val
-	rets   []retInfo
+	x       *Exec
+	fn      *ssa.Function
+	subst   TSubst
+	vals    map[ssa.Value]Val
+	spec    *FuncSpec
+	depth   int
+	prefix  string // obligation name prefix for inlined code
+	loops   []*loopInfo
+	byHead  map[*ssa.BasicBlock]*loopInfo
+	params  map[string]Val
+	rets    []retInfo
 	entrySt *State
-	rcOf   map[*ssa.BasicBlock]string
+	rcOf    map[*ssa.BasicBlock]string
 	callOrd map[string]int
-	stack  []*ssa.Function
-	curSt  *State
+	stack   []*ssa.Function
+	curSt   *State
 }
 
 type edge struct {
@@ -119,7 +120,22 @@ func (x *Exec) oblige(kind, label, guard, goal string, pos token.Pos, props []st
 	}
 	o := &Obligation{Name: name, Func: x.rootName, Kind: kind, Guard: guard, Goal: goal, Pos: x.eng.posOf(pos), Props: props, Text: text}
 	x.ctx.Oblige(o)
+	if x.rootSpec != nil {
+		short := strings.TrimPrefix(name, x.rootName+":")
+		for _, f := range x.rootSpec.Focus {
+			if globMatch(f.Obl, short) {
+				o.Focus = append(o.Focus, f.Keep...)
+			}
+		}
+	}
 	return o
+}
+
+func clauseLabel(label string, i int) string {
+	if label != "" {
+		return label
+	}
+	return fmt.Sprint(i + 1)
 }
 
 // ---------- strings, function application, arithmetic ----------
@@ -441,9 +457,9 @@ func (x *Exec) runRoot(prereg []preregKey) (err error) {
 	env := a.env(st, x.entry)
 	x.frame = &FrameSpec{fields: map[string][]func(string) string{}}
 	if x.rootSpec != nil {
-		for _, r := range x.rootSpec.Requires {
+		for i, r := range x.rootSpec.Requires {
 			c.Comment("requires " + r.Text)
-			c.Assume(env.evalBool(r.E))
+			c.AssumeTagged(fmt.Sprintf("pre:%s", clauseLabel(r.Label, i)), env.evalBool(r.E))
 		}
 		x.frame = x.evalFrame(x.rootSpec, env)
 		// cover:pre — the precondition is satisfiable (vacuity guard); checked as a must-be-sat query
@@ -913,7 +929,9 @@ func (x *Exec) fltLit(s string) string {
 	return x.fltRound(t)
 }
 
-func isFltLiteral(t string) bool { return strings.HasPrefix(t, "(/ ") || strings.HasPrefix(t, "(- (/ ") }
+func isFltLiteral(t string) bool {
+	return strings.HasPrefix(t, "(/ ") || strings.HasPrefix(t, "(- (/ ")
+}
 
 // fltRound returns a fresh real within the relative rounding error of the exact term p.
 func (x *Exec) fltRound(p string) string {
@@ -1560,7 +1578,23 @@ func (a *Activation) slice(ins *ssa.Slice, st *State, rc *string) Val {
 	if ins.Low != nil || ins.High != nil || ins.Max != nil {
 		x.oblige(a.oname("safe-slice"), "", *rc, and(app("<=", "0", lo), app("<=", lo, hi), app("<=", hi, mx), app("<=", mx, cp)), ins.Pos(), nil, "slice bounds out of range")
 	}
-	return Val{K: KSlice, T: t, Arr: arr, Off: c.Define(name+"_off", "Int", app("+", off, lo)), Len: c.Define(name+"_len", "Int", app("-", hi, lo)), Cap: c.Define(name+"_cap", "Int", app("-", mx, lo))}
+	r := Val{K: KSlice, T: t, Arr: arr, Off: c.Define(name+"_off", "Int", app("+", off, lo)), Len: c.Define(name+"_len", "Int", app("-", hi, lo)), Cap: c.Define(name+"_cap", "Int", app("-", mx, lo))}
+	if base.K == KSlice && lo != "0" {
+		if base.OffBase != "" {
+			r.OffBase, r.OffDelta = base.OffBase, app("+", base.OffDelta, lo)
+		} else {
+			r.OffBase, r.OffDelta = base.Off, lo
+		}
+	}
+	return r
+}
+
+// sidx: index term of element i of slice value s (see Val.OffBase)
+func (x *Exec) sidx(s Val, i string) string {
+	if s.OffBase != "" {
+		return x.eidx(s.OffBase, app("+", s.OffDelta, i))
+	}
+	return x.eidx(s.Off, i)
 }
 
 // ---------- loops ----------
@@ -1816,9 +1850,9 @@ func (a *Activation) loopHead(li *loopInfo, st *State, rc string) (*State, strin
 			}
 		}
 		env := a.loopEnv(li, st, nil)
-		for _, inv := range ls.Invariants {
+		for i, inv := range ls.Invariants {
 			c.Comment(fmt.Sprintf("loop %d invariant %s", li.ord, inv.Text))
-			c.Assume(implies(rc, env.evalBool(inv.E)))
+			c.AssumeTagged(fmt.Sprintf("loop%d:inv:%s", li.ord, clauseLabel(inv.Label, i)), implies(rc, env.evalBool(inv.E)))
 		}
 		// remember variant values at the head
 		if len(ls.Decreases) > 0 {
@@ -2262,7 +2296,7 @@ func (a *Activation) ghostAt(anchor string, st *State, rc string, results []Val,
 			if g.Field == "" {
 				f := env.evalBool(g.V)
 				x.oblige("lemma", fmt.Sprintf("%s#%d", strings.ReplaceAll(anchor, " ", "-"), nlem), rc, f, a.fn.Pos(), nil, g.Text)
-				c.Assume(implies(rc, f))
+				c.AssumeTagged(fmt.Sprintf("lemma:%s#%d", strings.ReplaceAll(anchor, " ", "-"), nlem), implies(rc, f))
 			} else {
 				// strong induction on the natural number g.Field: (forall j' < j. P(j')) ==> P(j), then assume forall j >= 0. P(j)
 				j := c.boundVar(g.Field)
